@@ -95,8 +95,12 @@ def check_c14(tier):
                 sel = [t for t in gtx if r.random() < 0.8 and t['exons'][0][0] <= pos < t['exons'][-1][1]]
                 if not sel:
                     continue
+                # the Frequency column as REDItools writes it: alt / (ref + alt) of the FIRST listed substitution, two decimals
+                # (it says nothing about the other substitutions and is coarser than the thresholds used here)
+                a1 = counts['ACGT'.index(subs[0][1])]; rf = counts['ACGT'.index(refb)]
+                freq_col = round(a1 / (a1 + rf), 2) if a1 + rf else 0.0
                 redi.append(dict(chrom='chr1', position=pos + 1, reference=refb, strand=1, coverage=sum(counts), counts=counts,
-                                 subs=subs, gcov=gcov, txs=[t['id'] for t in sel], **th))
+                                 subs=subs, gcov=gcov, txs=[t['id'] for t in sel], frequency=freq_col, **th))
                 num = {0.0625: [1, 16], 0.125: [1, 8], 0.25: [1, 4], 0.5: [1, 2]}[th['min_frequency_alt']]
                 rm.append(dict(tool='redi', genes=[dict(start=x['start'], end=x['end'], strand=x['strand']) for x in genes],
                                geneids=[x['id'] for x in genes],
